@@ -212,6 +212,9 @@ fn doc_stream(n: u64) -> Option<String> {
     ("a", MethodScope::VerificationMethod),
     ("b", MethodScope::VerificationRelationship(MethodRelationship::Authentication)),
     ("c", MethodScope::VerificationRelationship(MethodRelationship::AssertionMethod)),
+    ("d", MethodScope::VerificationRelationship(MethodRelationship::KeyAgreement)),
+    ("e", MethodScope::VerificationRelationship(MethodRelationship::CapabilityDelegation)),
+    ("f", MethodScope::VerificationRelationship(MethodRelationship::CapabilityInvocation)),
   ];
   for (f, sc) in scopes {
     doc.generate(&rt, &storage, f, sc)?;
@@ -224,20 +227,31 @@ fn doc_stream(n: u64) -> Option<String> {
   let bit = |i: u32| bits >> i & 1 == 1;
   if bit(0) { opts = opts.attach_jwk_to_header(true); }
   let b64 = if bit(1) { if bit(2) { opts = opts.b64(false); Some(false) } else { opts = opts.b64(true); Some(true) } } else { None };
-  if bit(3) { opts = opts.typ("vc+jwt"); }
-  if bit(4) { opts = opts.cty("json"); }
-  if bit(5) { opts = opts.url(Url::parse("https://example.com/x").unwrap()); }
-  let nonce = if bit(6) { opts = opts.nonce("n-1"); Some("n-1") } else { None };
+  // option VALUES are drawn from pools that include characters outside the URL-safe alphabet, padding, spaces,
+  // non-ASCII text and the empty string: whatever was requested must come back verbatim
+  let texts = ["vc+jwt", "JWT", "application/example;part=\"1/2\"", "two words", "ünï-é€", "", "q83vEjRWeJA=", "challenge:42", "a.b/c+d_e-f", "n-1"];
+  let pick = |k: u32| texts[(bits >> k) as usize % texts.len()];
+  let typ_v = pick(24);
+  let cty_v = pick(28);
+  let nonce_v = pick(32);
+  let kid_v = ["my-kid", "did:example:holder#zz", "kid with space", "k/ü?=", "#a", ""][(bits >> 36) as usize % 6];
+  let url_v = ["https://example.com/x", "https://example.com/a%20b?q=1&r=%C3%A9#frag", "did:example:1234"][(bits >> 40) as usize % 3];
+  let custom_v = [serde_json::json!({"a": [1, "two"]}), serde_json::json!("q83vEjRWeJA="), serde_json::json!(null), serde_json::json!(["é", {"k": -1}])][(bits >> 42) as usize % 4].clone();
+  let custom_k = ["x-custom", "X.custom/π", "exp"][(bits >> 44) as usize % 3];
+  if bit(3) { opts = opts.typ(typ_v); }
+  if bit(4) { opts = opts.cty(cty_v); }
+  if bit(5) { opts = opts.url(Url::parse(url_v).unwrap()); }
+  let nonce = if bit(6) { opts = opts.nonce(nonce_v); Some(nonce_v) } else { None };
   let custom_kid = bit(7);
-  if custom_kid { opts = opts.kid("my-kid"); }
+  if custom_kid { opts = opts.kid(kid_v); }
   let detached = bit(8);
   if detached { opts = opts.detached_payload(true); }
   if bit(9) {
     let mut o = Object::new();
-    o.insert("x-custom".into(), serde_json::json!({"a": [1, "two"]}));
+    o.insert(custom_k.into(), custom_v.clone());
     opts = opts.custom_header_parameters(o);
   }
-  let (frag, scope) = scopes[(bits >> 10) as usize % 3];
+  let (frag, scope) = scopes[(bits >> 10) as usize % 6];
   // payload classes
   let payload: Vec<u8> = match (bits >> 12) % 5 {
     0 => b"payload".to_vec(),
@@ -277,23 +291,29 @@ fn doc_stream(n: u64) -> Option<String> {
       if dec.claims.as_ref() != payload.as_slice() {
         return Some("doc-verify-claims-differ:".into());
       }
-      let want_kid: String = if custom_kid { "my-kid".to_string() } else { method_id.to_string() };
+      let want_kid: String = if custom_kid { kid_v.to_string() } else { method_id.to_string() };
       if dec.protected.nonce() != nonce || dec.protected.kid() != Some(want_kid.as_str()) {
         return Some("doc-verify-header-differs:".into());
       }
       // every requested option is in the protected header, as requested
       let h = &dec.protected;
-      if bit(3) && h.typ() != Some("vc+jwt") {
+      if h.typ() != Some(if bit(3) { typ_v } else { "JWT" }) {
         return Some(format!("doc-verify-header-differs:typ {:?}", h.typ()));
       }
-      if bit(4) && h.cty() != Some("json") {
+      if h.cty() != (if bit(4) { Some(cty_v) } else { None }) {
         return Some(format!("doc-verify-header-differs:cty {:?}", h.cty()));
       }
-      if bit(5) && h.url().map(|u| u.as_str()) != Some("https://example.com/x") {
+      if h.url().map(|u| u.as_str()) != (if bit(5) { Some(Url::parse(url_v).unwrap().as_str().to_string()) } else { None }).as_deref() {
         return Some(format!("doc-verify-header-differs:url {:?}", h.url()));
       }
-      if bit(9) && h.custom().and_then(|c| c.get("x-custom")) != Some(&serde_json::json!({"a": [1, "two"]})) {
+      if bit(9) && h.custom().and_then(|c| c.get(custom_k)) != Some(&custom_v) {
         return Some("doc-verify-header-differs:custom header parameter".into());
+      }
+      if !bit(9) && h.custom().map(|c| !c.is_empty()).unwrap_or(false) {
+        return Some("doc-verify-header-differs:custom header parameter although not requested".into());
+      }
+      if h.alg() != Some(JwsAlgorithm::EdDSA) {
+        return Some(format!("doc-verify-header-differs:alg {:?}", h.alg()));
       }
       match (b64, h.b64()) {
         (Some(false), Some(false)) => {
@@ -327,26 +347,41 @@ fn doc_stream(n: u64) -> Option<String> {
   if check(&doc, &base().method_scope(scope)).is_err() {
     return Some("own-scope-rejected:".into());
   }
-  for ex in [MethodScope::VerificationRelationship(MethodRelationship::KeyAgreement), MethodScope::VerificationRelationship(MethodRelationship::CapabilityInvocation), scopes[((bits >> 10) as usize + 1) % 3].1] {
+  for (_, ex) in scopes {
     if ex != scope && check(&doc, &base().method_scope(ex)).is_ok() {
       return Some(format!("excluding-scope-accepted:{:?} for a method in {:?}", ex, scope));
     }
   }
+  // the same with the method named explicitly (method_id option) instead of through the kid
+  for (_, ex) in scopes {
+    let r = check(&doc, &base().method_id(method_id.clone()).method_scope(ex));
+    if (ex == scope) != r.is_ok() {
+      return Some(format!("{}:{:?} for a method in {:?} (method_id given)", if ex == scope { "own-scope-rejected" } else { "excluding-scope-accepted" }, ex, scope));
+    }
+  }
   // 3. a different nonce (or a nonce on only one side) rejects
   let wrong = match nonce {
-    Some(_) => vec![JwsVerificationOptions::new().nonce("n-2"), JwsVerificationOptions::new()],
-    None => vec![JwsVerificationOptions::new().nonce("n-1")],
+    Some(nv) => vec![
+      JwsVerificationOptions::new().nonce(format!("{}2", nv)),
+      JwsVerificationOptions::new().nonce(b64url(nv.as_bytes())),
+      JwsVerificationOptions::new().nonce(nv.to_uppercase() + "x"),
+      JwsVerificationOptions::new(),
+    ],
+    None => vec![JwsVerificationOptions::new().nonce("n-1"), JwsVerificationOptions::new().nonce("")],
   };
   for mut w in wrong {
+    if w.nonce.as_deref() == nonce {
+      continue;
+    }
     if custom_kid {
       w = w.method_id(method_id.clone());
     }
     if check(&doc, &w).is_ok() {
-      return Some("wrong-nonce-accepted:".into());
+      return Some(format!("wrong-nonce-accepted:signed with nonce {:?}, verified with {:?}", nonce, w.nonce));
     }
   }
   // 4. another method's key rejects
-  let other_frag = scopes[((bits >> 10) as usize + 1) % 3].0;
+  let other_frag = scopes[((bits >> 10) as usize + 1 + (bits >> 46) as usize % 5) % 6].0;
   let other_id = doc.core().id().to_url().join(format!("#{}", other_frag)).unwrap();
   let mut v = JwsVerificationOptions::new().method_id(other_id);
   if let Some(nc) = nonce {
